@@ -31,14 +31,22 @@ def specs(tier: str):
         has_t = pattern in ('response', 'prevention', 'requirement')
         has_a = scope in ('after', 'after_until')
         has_q = scope in ('until', 'after_until')
-        for fam in ('none', 'threshold', 'alias'):
+        for fam in ('none', 'threshold', 'alias', 'slashy'):
+            if fam == 'slashy' and (pattern not in ('absence', 'existence', 'response') and tier == 'quick'):
+                continue
             for mt in ((None, 1.0) if tier == 'quick' else (None, 1.0, 0.25, 0.0)):
                 for wb, wt, wq in itertools.product(W if pos == 'behaviour' else O, (W if pos == 'trigger' else O) if has_t else (1,), O if has_q else (1,)):
                     p: Dict[str, Any] = {'scope': scope, 'pattern': pattern, 'activator': None, 'terminator': None, 'trigger': None,
                                          'max_time': mt, 'meta': None}
-                    def ev(prefix, w, alias, pr):
-                        return props.mk_event(prefix, w, [alias] * w if alias else None, pr)
-                    if fam == 'none':
+                    def ev(prefix, w, alias, pr, fam=fam):
+                        props.SLASHY[0] = (fam == 'slashy')   # look-alike channel names: b0, /b0, ~b0 are three different channels
+                        try:
+                            return props.mk_event(prefix, w, [alias] * w if alias else None, pr)
+                        finally:
+                            props.SLASHY[0] = False
+                    if fam == 'slashy' and max(wb, wt, wq) < 2:
+                        continue
+                    if fam in ('none', 'slashy'):
                         pa = pq = ptg = pb = None
                         al_a = al_t = al_b = None
                     elif fam == 'threshold':
@@ -73,6 +81,9 @@ def specs(tier: str):
                     yield p
 
 
+HIST_PARTNER = {'absence': 'existence', 'existence': 'absence', 'response': 'prevention', 'prevention': 'response', 'requirement': 'requirement'}
+
+
 def decide(P, Qs, k: int, reading: str, timeout_ms: int = 20000):
     """z3: is there a trace of length k on which P and the conjunction of Qs disagree?"""
     topics = tr.topics_of([P] + list(Qs))
@@ -103,11 +114,26 @@ def decide(P, Qs, k: int, reading: str, timeout_ms: int = 20000):
 
 def case(item):
     from hpl.rewrite import canonical_form
-    spec, k = item
+    spec, k = item[0], item[1]
+    mode = item[2] if len(item) > 2 else 'plain'
     if props.binding_verdict(spec) is not None:
         return ('skip', None, None, None)
-    P = props.build_property(spec)
     text = props.render_property(spec)
+    if mode == 'plain':
+        P = props.build_property(spec)
+    else:
+        # history: the property is derived with but() from a sibling that has ALREADY been through canonical_form
+        other = dict(spec)
+        other['pattern'] = HIST_PARTNER[spec['pattern']]
+        if props.binding_verdict(other) is not None:
+            return ('skip', None, None, None)
+        P0 = props.build_property(other)
+        try:
+            canonical_form(P0)
+        except Exception:
+            return ('skip', None, None, None)
+        P = P0.but(pattern=props.build_property(spec).pattern)
+        text += '  [derived from its sibling after canonical_form]'
     try:
         Qs = canonical_form(P)
     except Exception as e:
@@ -161,13 +187,16 @@ def main() -> int:
     ck.functions('hpl.rewrite.canonical_form', 'hpl.rewrite._canonical_form_safety', 'hpl.rewrite._canonical_form_liveness', 'hpl.ast.events.HplEvent.simple_events')
     k = 5 if ck.tier == 'quick' else 6
     items = [(s, k) for s in specs(ck.tier)]
+    items += [(s, k, 'hist') for i, s in enumerate(specs('quick')) if s['pattern'] != 'requirement' and s['max_time'] is None
+              and (ck.tier == 'thorough' or i % 3 == 0)]
     if ck.tier == 'thorough':
         items += [(s, 7) for i, s in enumerate(specs('quick')) if i % 7 == 0]
     witnesses(ck, k)
     results = [x for c in par.pmap_chunks(worker, items, 20) for x in c]
     shapes = 0
     split_shapes = 0
-    for (spec, kk), (status, a, b, _) in results:
+    for item, (status, a, b, _) in results:
+        spec, kk = item[0], item[1]
         if status == 'skip':
             continue
         if status == 'harness':
@@ -206,7 +235,18 @@ def replay(data) -> int:
     from fractions import Fraction
     from hpl.parser import property_parser
     from hpl.rewrite import canonical_form
-    P = property_parser().parse(data['text'])
+    text, derived = data['text'], False
+    if '  [derived' in text:
+        text, derived = text.split('  [derived')[0], True
+    P = property_parser().parse(text)
+    if derived:
+        import re
+        swap = {'no': 'some', 'some': 'no', 'causes': 'forbids', 'forbids': 'causes'}
+        sib = re.sub(r'(: )(no|some)( )|( )(causes|forbids)( )', lambda m: (m.group(1) + swap[m.group(2)] + m.group(3)) if m.group(2) else (m.group(4) + swap[m.group(5)] + m.group(6)), text, count=1)
+        P0 = property_parser().parse(sib)
+        canonical_form(P0)
+        P = P0.but(pattern=P.pattern)
+        print('history       : canonical_form(', P0, ') first, then P = that.but(pattern=...)')
     Qs = canonical_form(P)
     msgs = []
     for m in data['trace']:
